@@ -296,6 +296,10 @@ class StmtMixin:
                 for i, t in enumerate(target.elts):
                     self.bind_target(t, SV(e, arr[_ix(z3.IntVal(i), off)]), st, bound)
                 return
+        if isinstance(target, (ast.Subscript, ast.Attribute)) and not bound:
+            # a, b = x, y evaluates the right-hand side completely before any store (v already holds the values)
+            self.assign(target, v, st)
+            return
         raise Unsupported("binding target")
 
     # ------------------------------------------------------------------ control flow
@@ -434,7 +438,7 @@ class StmtMixin:
         st.cur_loop.append(n)
         try:
             self.check_invariants(n, invs, st, "inv-init")
-            written = self.dry_run(lambda s: self.loop_body_once(node, view, kname, s, dry=True), st)
+            written = self.dry_run(lambda s: self.loop_body_once(node, view, kname, s, dry=True), st, key=n)
             self.havoc_written(written, st, n)
             self.loop_frame(st, written, None)
             k = self.ctx.fresh(kname, z3.IntSort())
@@ -495,7 +499,7 @@ class StmtMixin:
         kname = "_k%d" % n
         st.env[kname] = mk_int(0)
         self.check_invariants(n, invs, st, "inv-init")
-        written = self.dry_run(lambda s: self.while_body_once(node, s), st)
+        written = self.dry_run(lambda s: self.while_body_once(node, s), st, key=n)
         self.havoc_written(written, st, n)
         self.loop_frame(st, written, None)
         k = self.ctx.fresh(kname, z3.IntSort())
@@ -587,8 +591,24 @@ class StmtMixin:
         for text in invs:
             st.assume(self.truthy(self.spec_text(text, st), st))
 
-    def dry_run(self, body, st):
-        """explore every path of the loop body on a scratch copy, recording what is written"""
+    def dry_run(self, body, st, key=None):
+        """explore every path of the loop body on a scratch copy, recording what is written.  The result is a function of the
+        loop and of the decisions taken before reaching it, so it is computed once per (loop, decision prefix)."""
+        ctx = self.ctx
+        cache = ctx.__dict__.setdefault("dry_cache", {})
+        ck = None
+        if key is not None:
+            ck = (key, ctx.dry, tuple(c for c, _ in ctx.taken))
+            if ck in cache:
+                for w in cache[ck]:
+                    ctx.note_write(w)
+                return set(cache[ck])
+        log = self._dry_run(body, st)
+        if ck is not None:
+            cache[ck] = frozenset(log)
+        return log
+
+    def _dry_run(self, body, st):
         ctx = self.ctx
         log = set()
         saved = (ctx.decisions, ctx.taken, ctx.prune)
@@ -631,6 +651,7 @@ class StmtMixin:
         s2.exc = st.exc
         s2.qdepth = st.qdepth
         s2.qids = set(st.qids)
+        s2.qguards = list(st.qguards)
         return s2
 
     def havoc_written(self, written, st, n):
